@@ -992,3 +992,66 @@ class C15(Spec):
 
     def sample(self, case, res):
         return {'seed': case['seed'], 'cfg': case['cfg'], 'prog': case['prog']}
+
+
+from .families import cfgfam  # noqa: E402
+
+
+@_register
+class C39(Spec):
+    check_id = 'C39'
+    family = 'cfg'
+    title = 'secure type and party configuration parameters are valid'
+    technique = ('deterministic simulation: every (m, t) booted through the real setup(); SecFld argument combinations '
+                 'resolved and exercised end to end (input, multiply, open) in the booted m-party world')
+    quick = {'runs': 2500, 'wall': 75}
+    thorough = {'runs': 300000, 'wall': 900}
+    expected_probes = ('lifted', 'not_lifted', 'num_types', 'illegal_threshold_refused')
+
+    def make_case(self, seed, tier):
+        rng = random.Random(f'C39/{seed}')
+        i = seed % 1000003
+        pairs = [(m, t) for m in range(1, 8) for t in range(0, m + 1)]
+        if i < len(pairs):
+            m, t = pairs[i]
+            return {'family': 'cfg', 'cfg': {'m': m, 't': t, 'no_prss': bool(i % 2), 'mix': False, 'k': 30, 'l': 32, 'no_barrier': False},
+                    'seed': seed, 'prog': {'family': 'cfg', 'flds': [], 'nums': [{'kind': 'int', 'l': 16}]}, 'boot_only': True}
+        legal = [(m, t) for m in range(1, 8) for t in range((m + 1) // 2)]
+        m, t = legal[seed % len(legal)]
+        cfg = sample_cfg(rng, tier, m_min=m, m_max=m)
+        cfg.t = t
+        prog = cfgfam.gen(rng, cfg, tier)
+        return {'family': 'cfg', 'cfg': cfg.to_json(), 'prog': prog, 'seed': seed}
+
+    def execute(self, case):
+        if not case.get('boot_only'):
+            return run_case(case, monitors=self.monitors(case))
+        from .world import Config, make_world
+        m, t = case['cfg']['m'], case['cfg']['t']
+        legal = 2 * t < m
+        res = _Result()
+        res.tape = []
+        try:
+            w = make_world(Config.from_json(case['cfg']), case['seed'])
+            w.close()
+            booted = True
+        except AssertionError:
+            booted = False
+        except BaseException as exc:   # any other refusal (e.g. SystemExit from argparse) counts as refusal too
+            booted = False
+            res.info['refusal'] = repr(exc)
+        res.outcome = 'ok'
+        if booted and not legal:
+            res.violations.append(('invariant:threshold-check', f'setup() accepted m={m}, t={t} although 2t >= m'))
+        if not booted and legal:
+            res.violations.append(('invariant:threshold-check', f'setup() refused the legal configuration m={m}, t={t}'))
+        res.info['probes'] = {'illegal_threshold_refused': int(not legal and not booted), 'legal_booted': int(legal and booted)}
+        res.results = [{'booted': booted}]
+        res.strategy = {'sched': 'boot', 'deliver': 'none'}
+        return res
+
+    def nontrivial(self, case, res):
+        return bool(case.get('boot_only')) or (case['cfg']['m'] >= 2 and res.bytes > 0)
+
+    def sample(self, case, res):
+        return {'seed': case['seed'], 'cfg': case['cfg'], 'prog': case['prog'], 'results': repr(res.results)[:300]}
